@@ -38,6 +38,13 @@ CHECKS = {
             "canonical Mpo tensors are isometries up to a positive scalar (by design of the code); centre at sweep start is "
             "the asserted precondition of canonicalise/compress; prod(d) <= 600",
             "DESIGN.md section 3 / C04"),
+    "C05": ("exploration",
+            "reference-model monitor: truncated state compared with independently computed dense Schmidt spectra of the "
+            "original state at every cut (two-sided discarded-weight bound), limits and norm asserted after every compress",
+            "Canonical states incl. degenerate spectra and rank-deficient inputs compressed with every criterion and kind of "
+            "limit from both directions; both inequalities are theorems, so any excursion is a defect of the truncation.",
+            "dense SVD at every cut (prod(d) <= 20000); slack 1e-8",
+            "DESIGN.md section 3 / C05"),
     "C20": ("exploration",
             "icontract postcondition on bipartite_vertex_cover at every call site + hook on _decompose_graph + "
             "small-scope exhaustive enumeration of graphs, against the harness's own maximum matching / brute force",
